@@ -65,12 +65,12 @@ func installHooks() {
 		}
 		return d.jitterDraw()
 	}
-	leader.VerifYield = func(site string) {
+	leader.VerifYield = func(instanceID, site string) {
 		d := curDriver.Load()
 		if d == nil {
 			return
 		}
-		d.yield(site)
+		d.yield(instanceID, site)
 	}
 }
 
@@ -85,7 +85,7 @@ func (d *Driver) jitterDraw() uint64 {
 	return u
 }
 
-func (d *Driver) yield(site string) {
+func (d *Driver) yield(instanceID, site string) {
 	if d.free {
 		if d.plan.Sched.YieldProb > 0 {
 			runtime.Gosched()
@@ -101,8 +101,14 @@ func (d *Driver) yield(site string) {
 	if d.plan.Sched.StallMax > 0 && d.rYield.Bool(0.5) {
 		st = d.rYield.Dur(0, d.plan.Sched.StallMax)
 	}
-	y := &yieldReq{site: site, d: st, ch: make(chan struct{}), gid: goid()}
-	d.h.Stalls = append(d.h.Stalls, StallEvt{T: d.now(), Site: site, D: st, GID: y.gid})
+	y := &yieldReq{site: site, d: st, ch: make(chan struct{}), gid: goid(), inst: -1}
+	for _, in := range d.insts {
+		if in.cfg.ID == instanceID {
+			y.inst = in.idx
+			in.parkedYields++
+		}
+	}
+	d.h.Stalls = append(d.h.Stalls, StallEvt{T: d.now(), Site: site, D: st, GID: y.gid, Inst: y.inst})
 	d.inbox = append(d.inbox, &request{kind: "yield", y: y})
 	d.mu.Unlock()
 	d.signal()
@@ -186,33 +192,43 @@ func RunPlan(t *testing.T, p *Plan, keepLog bool) (res *Result) {
 	return res
 }
 
-// collectLeftover lists goroutines with library frames that are still alive
-// at the drain point (end of run, everything released).
+// collectLeftover lists goroutines of this bubble with library frames that are
+// still alive at the drain point (end of run, everything released).
 func (d *Driver) collectLeftover() {
-	buf := make([]byte, 1<<20)
+	buf := make([]byte, 4<<20)
 	n := runtime.Stack(buf, true)
-	for _, g := range strings.Split(string(buf[:n]), "\n\n") {
-		if !strings.Contains(g, "synctest") && !strings.Contains(g, leaderPkg) {
+	gs := strings.Split(string(buf[:n]), "\n\n")
+	if len(gs) == 0 {
+		return
+	}
+	// the first goroutine printed is the current one (the driver): take its bubble tag
+	bubble := ""
+	if i := strings.Index(gs[0], "synctest bubble "); i >= 0 {
+		rest := gs[0][i:]
+		if j := strings.IndexAny(rest, "]:,"); j > 0 {
+			bubble = rest[:j]
+		}
+	}
+	if bubble == "" {
+		return
+	}
+	for _, g := range gs[1:] {
+		hdr := g
+		if i := strings.IndexByte(g, '\n'); i > 0 {
+			hdr = g[:i]
+		}
+		if !strings.Contains(hdr, bubble+"]") && !strings.Contains(hdr, bubble+",") {
 			continue
 		}
-		if !strings.Contains(g, leaderPkg) {
-			continue
-		}
-		// first leader frame
-		var first string
 		for _, ln := range strings.Split(g, "\n") {
 			if strings.HasPrefix(ln, leaderPkg) {
-				first = strings.TrimPrefix(ln, leaderPkg)
+				first := strings.TrimPrefix(ln, leaderPkg)
 				if i := strings.LastIndexByte(first, '('); i > 0 {
 					first = first[:i]
 				}
+				d.leftover = append(d.leftover, first)
 				break
 			}
 		}
-		if !strings.Contains(g, "bubble") && !strings.Contains(g, "synctest") {
-			// goroutine of an earlier run (outside this bubble)
-			continue
-		}
-		d.leftover = append(d.leftover, first)
 	}
 }
